@@ -8,6 +8,39 @@ import traceback
 from vlib.ctx import Ctx, Infra
 
 
+def ensure_parser():
+    """src/scenic/syntax/parser.py is a git-ignored build product of scenic.gram which Scenic itself only builds when it
+    is missing.  Checks must see the CURRENT grammar, so rebuild it (as the repository's Makefile does) whenever it is
+    missing or older than the grammar.  Serialised by a lock because several checks may start at once."""
+    import fcntl
+    import subprocess
+    repo = os.environ.get("SCENIC_REPO", "/repo")
+    gram = os.path.join(repo, "src/scenic/syntax/scenic.gram")
+    parser = os.path.join(repo, "src/scenic/syntax/parser.py")
+    if not os.path.exists(gram):
+        return
+    def stale():
+        return (not os.path.exists(parser)) or os.path.getmtime(parser) < os.path.getmtime(gram)
+    if not stale():
+        return
+    lockdir = os.path.join(os.environ.get("VERIF_ROOT", "."), "lean", ".lake")
+    os.makedirs(lockdir, exist_ok=True)
+    with open(os.path.join(lockdir, "verif-parser.lock"), "w") as lk:
+        fcntl.flock(lk, fcntl.LOCK_EX)
+        if stale():
+            tmp = parser + ".verif-tmp"
+            p = subprocess.run([sys.executable, "-m", "pegen", "-q", gram, "-o", tmp], capture_output=True, text=True,
+                               cwd=repo, timeout=900)
+            if p.returncode != 0 or not os.path.exists(tmp):
+                # a grammar pegen cannot compile: leave no parser behind, so that Scenic's own import reports it
+                for f in (tmp, parser):
+                    if os.path.exists(f):
+                        os.remove(f)
+                print("NOTE: pegen could not build a parser from the current scenic.gram: " + (p.stdout + p.stderr)[-300:])
+            else:
+                os.replace(tmp, parser)
+
+
 def main():
     ap = argparse.ArgumentParser()
     ap.add_argument("prop")
@@ -20,6 +53,11 @@ def main():
         seed = int(os.environ.get("VERIF_SEED", "0") or 0)
     except ValueError:
         seed = 0
+    try:
+        ensure_parser()
+    except Exception as e:  # never a violation
+        print(f"INFRA: cannot rebuild the Scenic parser from the current grammar: {e}")
+        sys.exit(2)
     ctx = Ctx(prop, args.tier, seed)
     try:
         mod = importlib.import_module(f"props.{prop.lower()}")
